@@ -325,8 +325,14 @@ func (sh *SessionHandler) rpcRenewAndClearContract(s *session, log *zap.Logger) 
 	var baseCollateral types.Currency
 	if renewedContract.WindowEnd > existingRevision.WindowEnd {
 		extension := uint64(renewedContract.WindowEnd - existingRevision.WindowEnd)
-		baseRevenue = baseRevenue.Add(settings.StoragePrice.Mul64(renewedContract.Filesize).Mul64(extension))
-		baseCollateral = settings.Collateral.Mul64(renewedContract.Filesize).Mul64(extension)
+		var ok bool
+		// note: Filesize and WindowEnd have not been validated yet
+		baseRevenue, baseCollateral, ok = rhp.RenewalBaseCosts(baseRevenue, settings.StoragePrice, settings.Collateral, renewedContract.Filesize, extension)
+		if !ok {
+			err := errors.New("invalid contract renewal: base cost overflows")
+			s.t.WriteResponseErr(err)
+			return contracts.Usage{}, err
+		}
 	}
 
 	// validate the renewal
